@@ -35,7 +35,7 @@ CONFIGS_EXTRA = ["process/file_array", "process/shared_memory_dict", "async-proc
 
 def registry():
     from contracts import misc
-    return {c.short: c for c in misc.ALL}
+    return {**{c.short: c for c in misc.ALL}, **{c.name: c for c in misc.ALL}}
 
 
 def _exf_gen(rng, tier):
